@@ -29,6 +29,7 @@ const (
 	nAbort
 	nLocal
 	nNative // [op, hash, method, flags, args]
+	nIf     // [op, key, body]: run body if the key is present in the executing contract's storage
 	nOps
 )
 
@@ -91,7 +92,7 @@ func buildInterp() interpCode {
 	a.jmp(opcode.JMPIFL, "done")
 	a.ops(opcode.LDARG0, opcode.LDLOC0, opcode.PICKITEM, opcode.STLOC1)
 	a.ops(opcode.LDLOC0, opcode.INC, opcode.STLOC0)
-	names := []string{"h_put", "h_del", "h_notify", "h_call", "h_tryc", "h_tryf", "h_trycf", "h_throw", "h_abort", "h_local", "h_native"}
+	names := []string{"h_put", "h_del", "h_notify", "h_call", "h_tryc", "h_tryf", "h_trycf", "h_throw", "h_abort", "h_local", "h_native", "h_if"}
 	for i, n := range names {
 		ldNode()
 		a.pick(0)
@@ -188,6 +189,16 @@ func buildInterp() interpCode {
 	a.pick(1)
 	a.syscall(interopnames.SystemContractCall)
 	a.ops(opcode.CLEAR)
+	a.jmp(opcode.JMPL, "loop")
+
+	a.label("h_if")
+	ldNode()
+	a.pick(1)
+	a.syscall(interopnames.SystemStorageGetContext)
+	a.syscall(interopnames.SystemStorageGet)
+	a.ops(opcode.ISNULL)
+	a.jmp(opcode.JMPIFL, "loop")
+	runList(2)
 	a.jmp(opcode.JMPL, "loop")
 
 	// onNEP17Payment(from, amount, data)
